@@ -462,10 +462,10 @@ _HEADER = {
     # header and subheader
     'target':   bytes([0x00, 0x02]),
     'target4':  bytes([0x01, 0x02]),
-    # TODO: OriginASN4Number (2,2)
+    'targetas4':  bytes([0x02, 0x02]),  # RFC 5668 4-octet AS specific
     'origin':   bytes([0x00, 0x03]),
     'origin4':  bytes([0x01, 0x03]),
-    # TODO: RouteTargetASN4Number (2,3)
+    'originas4':  bytes([0x02, 0x03]),  # RFC 5668 4-octet AS specific
     'redirect': bytes([0x80, 0x08]),
     'l2info':   bytes([0x80, 0x0A]),
     'redirect-to-nexthop': bytes([0x08, 0x00]),
@@ -479,6 +479,8 @@ _ENCODE = {
     'target4':  'LH',
     'origin':   'HL',
     'origin4':  'LH',
+    'targetas4': 'LH',
+    'originas4': 'LH',
     'redirect': 'HL',
     'l2info':   'BBHH',
     'bandwidth': 'Hf',
@@ -534,8 +536,12 @@ def _encode(command: str, components: list[int], parts: list[str]) -> tuple[byte
         raise ValueError('invalid extended community type {}'.format(command))
 
     if command in ('origin', 'target'):
-        if components[0] > _SIZE_H or '.' in parts[0] or parts[0][-1] == 'L':
+        if '.' in parts[0]:
+            # IPv4 address specific (RFC 4360 type 0x01)
             command += '4'
+        elif components[0] > _SIZE_H or parts[0][-1] == 'L':
+            # a 4-byte AS number is its own type (RFC 5668 type 0x02), not an IPv4 address
+            command += 'as4'
 
     encoding = _ENCODE[command]
 
